@@ -6,7 +6,7 @@ namespace NemoVerif.Serialize
     wrapper tags is shadowed by a class of `name_to_class`. -/
 theorem builtin_tags_not_classes :
     isDataclassName "datetime" = false ∧ isDataclassName "deque" = false ∧ isDataclassName "tuple" = false
-    ∧ isDataclassName "dict" = false ∧ isDataclassName "set" = false := by
+    ∧ isDataclassName "dict" = false ∧ isDataclassName "set" = false ∧ isDataclassName "regex" = false := by
   simp [isDataclassName, NemoVerif.Generated.C11.nameToClass]
 
 theorem keyStr_str {k : Key} (h : k.isStr = true) : keyStr k = .ok (keyName k) ∧ Key.str (keyName k) = k := by
@@ -38,7 +38,7 @@ theorem raw_roundtrip : (v : PV) → RawOk v = true → ∃ j, rawDump v = .ok j
   | .datetime _, h => by simp [RawOk] at h
   | .action _ _ _ _ _ _ _, h => by simp [RawOk] at h
   | .partialFn, h => by simp [RawOk] at h
-  | .regex _, h => by simp [RawOk] at h
+  | .regex _ _, h => by simp [RawOk] at h
   | .cmp, h => by simp [RawOk] at h
   | .other _, h => by simp [RawOk] at h
 theorem raw_roundtrip_list : (xs : List PV) → RawOkList xs = true → ∃ js, rawDumpList xs = .ok js ∧ decodeList js = .ok xs
@@ -63,6 +63,47 @@ theorem raw_roundtrip_kvs : (kvs : List (Key × PV)) → RawOkKvs kvs = true →
       by simp [decodePlain, h2, h4, hk2, bind, Except.bind, pure, Except.pure], by simp [typeTag, hne', h5]⟩
 end
 
+
+/-! ### keys written as values (`encode_to_dict(k, refs)`) -/
+theorem encodeList_atoms : (xs : List Atom) → encodeList (xs.map Atom.toPV) = .ok (xs.map Atom.toJ)
+  | [] => by simp [encodeList]
+  | a :: xs => by
+    have ih := encodeList_atoms xs
+    cases a <;> simp [encodeList, encode, Atom.toPV, Atom.toJ, ih, bind, Except.bind, pure, Except.pure]
+
+/-- `encodeKey` is `encode_to_dict` applied to the key -/
+theorem encodeKey_spec (k : Key) : encode k.toPV = .ok (encodeKey k) := by
+  cases k with
+  | tuple xs => simp [Key.toPV, encode, encodeKey, encodeList_atoms xs, bind, Except.bind, pure, Except.pure]
+  | _ => simp [Key.toPV, encode, encodeKey]
+
+theorem decodeList_atoms : (xs : List Atom) → decodeList (xs.map Atom.toJ) = .ok (xs.map Atom.toPV)
+  | [] => by simp [decodeList]
+  | a :: xs => by
+    have ih := decodeList_atoms xs
+    cases a <;> simp [decodeList, decode, Atom.toPV, Atom.toJ, ih, bind, Except.bind, pure, Except.pure]
+
+theorem atomsOfPVs_atoms : (xs : List Atom) → atomsOfPVs (xs.map Atom.toPV) = some xs
+  | [] => rfl
+  | a :: xs => by
+    have ih := atomsOfPVs_atoms xs
+    cases a <;> simp [atomsOfPVs, atomOfPV, Atom.toPV, ih]
+
+theorem decode_encodeKey (k : Key) : decode (encodeKey k) = .ok k.toPV := by
+  cases k with
+  | tuple xs =>
+    have := builtin_tags_not_classes
+    simp [encodeKey, wrap, decode, typeTag, decodeAtValue, decodeList_atoms xs, Key.toPV, this, bind, Except.bind, pure, Except.pure]
+  | _ => simp [encodeKey, decode, Key.toPV]
+
+theorem keyOfPV_toPV (k : Key) : keyOfPV k.toPV = .ok k := by
+  cases k with
+  | tuple xs => simp [Key.toPV, keyOfPV, atomsOfPVs_atoms xs]
+  | _ => simp [Key.toPV, keyOfPV]
+
+theorem allStr_cons {k : Key} {v : PV} {rest : List (Key × PV)} (h : allStr ((k, v) :: rest) = true) :
+    k.isStr = true ∧ allStr rest = true := by
+  simpa [allStr] using h
 
 theorem typeTag_none_of_noTypeKey : (kvs : List (Key × PV)) → (o : List (String × J)) →
     EncodableKvs kvs = true → noTypeKey kvs = true → encodeKvs kvs = .ok o → typeTag o = none
@@ -131,10 +172,18 @@ theorem roundtrip : (v : PV) → Encodable v = true → ∃ j, encode v = .ok j 
     simp [wrap, decode, typeTag, decodeAtValue, h2, this, bind, Except.bind, pure, Except.pure]
   | .dict kvs, h => by
     simp only [Encodable] at h
-    obtain ⟨o, h1, h2⟩ := roundtrip_kvs kvs h
-    refine ⟨wrap "dict" (.obj o), by simp [encode, h1, bind, Except.bind, pure, Except.pure], ?_⟩
     have := builtin_tags_not_classes
-    simp [wrap, decode, typeTag, decodeItemsAtValue, h2, this, bind, Except.bind, pure, Except.pure]
+    by_cases hs : allStr kvs = true
+    · obtain ⟨o, h1, h2⟩ := roundtrip_vals kvs h hs
+      refine ⟨wrap "dict" (.obj o), by simp [encode, hs, h1, bind, Except.bind, pure, Except.pure], ?_⟩
+      simp [wrap, decode, typeTag, hasKey, decodeItemsAtValue, h2, this, bind, Except.bind, pure, Except.pure]
+    · obtain ⟨items, h1, h2⟩ := roundtrip_items kvs h
+      refine ⟨.obj [("__type", .str "dict"), ("items", .arr items)], by simp [encode, hs, h1, bind, Except.bind, pure, Except.pure], ?_⟩
+      simp [decode, typeTag, hasKey, decodePairsAtItems, h2, this, bind, Except.bind, pure, Except.pure]
+  | .regex p f, _ => by
+    refine ⟨_, by simp [encode]; rfl, ?_⟩
+    have := builtin_tags_not_classes
+    simp [decode, typeTag, strField, intField, this, bind, Except.bind, pure, Except.pure]
   | .railsConfig kvs, h => by
     simp only [Encodable] at h
     obtain ⟨o, h1, h2⟩ := roundtrip_kvs kvs h
@@ -171,7 +220,6 @@ theorem roundtrip : (v : PV) → Encodable v = true → ∃ j, encode v = .ok j 
     cases fu <;>
     simp [wrap, decode, typeTag, decodeAtValue, decodePlain, optStrJ, c2, a2, lookup_action, hs, bind, Except.bind, pure, Except.pure]
   | .partialFn, h => by simp [Encodable] at h
-  | .regex _, h => by simp [Encodable] at h
   | .cmp, h => by simp [Encodable] at h
   | .other _, h => by simp [Encodable] at h
 theorem roundtrip_list : (xs : List PV) → EncodableList xs = true → ∃ js, encodeList xs = .ok js ∧ decodeList js = .ok xs
@@ -192,6 +240,26 @@ theorem roundtrip_kvs : (kvs : List (Key × PV)) → EncodableKvs kvs = true →
     obtain ⟨hk1, hk2⟩ := keyStr_str hk
     exact ⟨(keyName k, j) :: o, by simp [encodeKvs, h1, h3, hk1, bind, Except.bind, pure, Except.pure],
       by simp [decodePlain, h2, h4, hk2, bind, Except.bind, pure, Except.pure]⟩
+theorem roundtrip_vals : (kvs : List (Key × PV)) → EncodableVals kvs = true → allStr kvs = true →
+    ∃ o, encodeVals kvs = .ok o ∧ decodePlain o = .ok kvs
+  | [], _, _ => ⟨[], by simp [encodeVals], by simp [decodePlain]⟩
+  | (k, v) :: rest, h, hs => by
+    simp only [EncodableVals, Bool.and_eq_true] at h
+    obtain ⟨hk, hr⟩ := allStr_cons hs
+    obtain ⟨j, h1, h2⟩ := roundtrip v h.1
+    obtain ⟨o, h3, h4⟩ := roundtrip_vals rest h.2 hr
+    obtain ⟨_, hk2⟩ := keyStr_str hk
+    exact ⟨(keyName k, j) :: o, by simp [encodeVals, h1, h3, bind, Except.bind, pure, Except.pure],
+      by simp [decodePlain, h2, h4, hk2, bind, Except.bind, pure, Except.pure]⟩
+theorem roundtrip_items : (kvs : List (Key × PV)) → EncodableVals kvs = true →
+    ∃ items, encodeItems kvs = .ok items ∧ decodePairs items = .ok kvs
+  | [], _ => ⟨[], by simp [encodeItems], by simp [decodePairs]⟩
+  | (k, v) :: rest, h => by
+    simp only [EncodableVals, Bool.and_eq_true] at h
+    obtain ⟨j, h1, h2⟩ := roundtrip v h.1
+    obtain ⟨items, h3, h4⟩ := roundtrip_items rest h.2
+    exact ⟨.arr [encodeKey k, j] :: items, by simp [encodeItems, h1, h3, bind, Except.bind, pure, Except.pure],
+      by simp [decodePairs, decode_encodeKey, keyOfPV_toPV, h2, h4, bind, Except.bind, pure, Except.pure]⟩
 end
 
 
@@ -214,7 +282,7 @@ theorem rawDump_isOk : (v : PV) → (rawDump v).isOk = RawShape v
     have := rawDumpKvs_isOk kvs
     cases h : rawDumpKvs kvs <;> simp_all [rawDump, RawShape, bind, Except.bind, pure, Except.pure, Except.isOk, Except.toBool]
   | .set _ | .deque _ | .data _ _ | .railsConfig _ | .specType _ | .enum _ _ | .datetime _
-  | .action _ _ _ _ _ _ _ | .partialFn | .regex _ | .cmp | .other _ => by
+  | .action _ _ _ _ _ _ _ | .partialFn | .regex _ _ | .cmp | .other _ => by
     simp [rawDump, RawShape, Except.isOk, Except.toBool]
 theorem rawDumpList_isOk : (xs : List PV) → (rawDumpList xs).isOk = RawShapeList xs
   | [] => by simp [rawDumpList, RawShapeList, Except.isOk, Except.toBool]
@@ -235,12 +303,17 @@ end
 
 mutual
 theorem encode_isOk : (v : PV) → (encode v).isOk = EncShape v
-  | .none | .bool _ | .int _ | .flt _ _ | .str _ | .partialFn | .specType _ | .datetime _ | .enum _ _ => by
+  | .none | .bool _ | .int _ | .flt _ _ | .str _ | .partialFn | .specType _ | .datetime _ | .enum _ _ | .regex _ _ => by
     simp [encode, EncShape, Except.isOk, Except.toBool]
   | .list xs | .tuple xs | .set xs | .deque xs => by
     have := encodeList_isOk xs
     cases h : encodeList xs <;> simp_all [encode, EncShape, bind, Except.bind, pure, Except.pure, Except.isOk, Except.toBool]
-  | .dict kvs | .data _ kvs | .railsConfig kvs => by
+  | .dict kvs => by
+    have h1 := encodeVals_isOk kvs
+    have h2 := encodeItems_isOk kvs
+    cases hs : allStr kvs <;> cases hv : encodeVals kvs <;> cases hi : encodeItems kvs <;>
+      simp_all [encode, EncShape, bind, Except.bind, pure, Except.pure, Except.isOk, Except.toBool]
+  | .data _ kvs | .railsConfig kvs => by
     have := encodeKvs_isOk kvs
     cases h : encodeKvs kvs <;> simp_all [encode, EncShape, bind, Except.bind, pure, Except.pure, Except.isOk, Except.toBool]
   | .action _ _ _ _ ctx args _ => by
@@ -248,7 +321,7 @@ theorem encode_isOk : (v : PV) → (encode v).isOk = EncShape v
     have h2 := rawDump_isOk args
     cases hc : rawDump ctx <;> cases ha : rawDump args <;>
       simp_all [encode, EncShape, bind, Except.bind, pure, Except.pure, Except.isOk, Except.toBool]
-  | .regex _ | .cmp | .other _ => by simp [encode, EncShape, Except.isOk, Except.toBool]
+  | .cmp | .other _ => by simp [encode, EncShape, Except.isOk, Except.toBool]
 theorem encodeList_isOk : (xs : List PV) → (encodeList xs).isOk = EncShapeList xs
   | [] => by simp [encodeList, EncShapeList, Except.isOk, Except.toBool]
   | x :: xs => by
@@ -264,6 +337,20 @@ theorem encodeKvs_isOk : (kvs : List (Key × PV)) → (encodeKvs kvs).isOk = Enc
     have h3 := keyStr_isOk k
     cases hv : encode v <;> cases hk : keyStr k <;> cases hr : encodeKvs rest <;>
       simp_all [encodeKvs, EncShapeKvs, bind, Except.bind, pure, Except.pure, Except.isOk, Except.toBool]
+theorem encodeVals_isOk : (kvs : List (Key × PV)) → (encodeVals kvs).isOk = EncShapeVals kvs
+  | [] => by simp [encodeVals, EncShapeVals, Except.isOk, Except.toBool]
+  | (k, v) :: rest => by
+    have h1 := encode_isOk v
+    have h2 := encodeVals_isOk rest
+    cases hv : encode v <;> cases hr : encodeVals rest <;>
+      simp_all [encodeVals, EncShapeVals, bind, Except.bind, pure, Except.pure, Except.isOk, Except.toBool]
+theorem encodeItems_isOk : (kvs : List (Key × PV)) → (encodeItems kvs).isOk = EncShapeVals kvs
+  | [] => by simp [encodeItems, EncShapeVals, Except.isOk, Except.toBool]
+  | (k, v) :: rest => by
+    have h1 := encode_isOk v
+    have h2 := encodeItems_isOk rest
+    cases hv : encode v <;> cases hr : encodeItems rest <;>
+      simp_all [encodeItems, EncShapeVals, bind, Except.bind, pure, Except.pure, Except.isOk, Except.toBool]
 end
 
 end NemoVerif.Serialize
